@@ -20,6 +20,6 @@ Theorem C20_release_on_every_path : forall thr fb l,
 Proof. exact c20_no_leak. Qed.
 
 Example C20_example :
-  trun_tower 1 true 0 [mkQ ReadyErr false; mkQ PendOk false; mkQ PendErr true; mkQ ReadyOk false] =
+  trun_tower 1 1 0 [mkQ ReadyErr false; mkQ PendOk false; mkQ PendErr true; mkQ ReadyOk false] =
   [mkTO 1 TRErr 0 1; mkTO 1 TROkInner 0 3; mkTO 1 TRDropped 1 1; mkTO 0 TROkFallback 1 0].
 Proof. vm_compute. reflexivity. Qed.
